@@ -67,6 +67,7 @@ Proof.
     apply (parity_contra q2 q1 (2 ^ b) Hp). lia.
 Qed.
 
+Set Default Timeout 20.
 Definition init_step (s : bstate) (pos bits : N) : bstate :=
   let s1 := set_fl (set_hdr s pos (Some (bits, false))) bits [pos] in
   match b_maxbits s1 with
